@@ -4,6 +4,7 @@
 From NDN Require Import Base.Prelude Spec.ExpressSpec Model.ExpressPipeline.
 From NDN Require Import Proofs.ExpressSafety Proofs.ExpressRefine Proofs.ExpressMain Proofs.ExpressC05.
 From NDN Require Import Generated.ValidResultConsts Proofs.ValidResultAgree.
+From NDN Require Import Model.GateSuspend Proofs.GateSuspendProofs.
 Local Open Scope N_scope.
 
 (* a Data packet is returned only if the validator supplied with that Interest accepted it:
@@ -115,3 +116,31 @@ Proof.
   split; [cbn; repeat split; try lia; intros H; repeat (destruct H as [H|H]; try discriminate H); contradiction|].
   repeat split; vm_compute; reflexivity.
 Qed.
+
+(* Suspended Interest validators (Model/GateSuspend.v): the validator of an incoming Interest may take its time, and
+   the application may attach / detach routes or replace its application-wide validator before the verdict is there.
+   For EVERY such history: a handler h that is called for an Interest k was attached (as handler h) at a prefix p of
+   k's name, with / without a validator of its own, and the validator in force FOR THAT ATTACHMENT accepted k
+   (a missing validator means rejection in V2; dv = an application-wide validator of the legacy front-end) -
+   never the handler of one route after the verdict of another route's validator. *)
+Theorem C05_suspended_gate (fe : frontend) (evs : list gev) (h : N) (k : inc) :
+  In (h, k) (g_hc (g_run fe evs)) ->
+  exists p hasv dv, In (h, (p, hasv)) (g_att (g_run fe evs)) /\ is_prefix p (k_name k) = true /\
+                    may_deliver fe (in_force fe hasv dv) k = true.
+Proof. exact (suspended_gate fe evs h k). Qed.
+Print Assumptions C05_suspended_gate.
+
+(* a handler id names one attachment (prefix, has a validator of its own) *)
+Theorem C05_handler_names_one_attachment (fe : frontend) (evs : list gev) (h : N) (x y : name * bool) :
+  In (h, x) (g_att (g_run fe evs)) -> In (h, y) (g_att (g_run fe evs)) -> x = y.
+Proof. exact (att_functional fe evs h x y). Qed.
+Print Assumptions C05_handler_names_one_attachment.
+
+(* /a attached with a validator; a signed Interest /a/b/h arrives, its validator suspends; meanwhile /a/b is attached
+   WITHOUT a validator (handler 1); the verdict is PASS: handler 0 - whose validator accepted - gets it, and a second
+   Interest arriving afterwards meets /a/b and is rejected (V2) *)
+Example C05_suspended_example :
+  map (fun x : N * inc => (fst x, k_id (snd x)))
+      (g_hc (g_run V2 [GAttach [0] true; GArrive (mkInc 0 [0; 1; 7] true 1 true 0) true; GAttach [0; 1] false;
+                       GArrive (mkInc 1 [0; 1; 7] true 1 true 3) false; GVerdict 0 3])) = [(0, 0)].
+Proof. vm_compute. reflexivity. Qed.
